@@ -379,6 +379,15 @@ def op_unflatten(operands, kind):
     return lhs
 
 
+def _key_gt(x, y):
+    """x.key > y.key; keys of constants hold the constant values, that
+    may be of mutually unorderable types (a named constant is a str)"""
+    try:
+        return x.key > y.key
+    except TypeError:
+        return str(x.key) > str(y.key)
+
+
 class Rewriter:
 
     def __init__(self):
@@ -665,7 +674,7 @@ class Rewriter:
             if x is a or x is b:
                 return y
 
-        if x.key > y.key:
+        if _key_gt(x, y):
             return expr.context.logical_and(y, x)
 
     def logical_or(self, expr):
@@ -697,7 +706,7 @@ class Rewriter:
         # make logical_or unique with respect to their operands,
         # however, different runtimes may produce different orderings,
         # see Expr.key
-        if x.key > y.key:
+        if _key_gt(x, y):
             return expr.context.logical_or(y, x)
 
     def logical_not(self, expr):
@@ -869,7 +878,7 @@ class Rewriter:
             )
 
         if expr.kind in {"eq", "ne"}:
-            if x.key > y.key:
+            if _key_gt(x, y):
                 # make eq and ne unique with respect to their operands
                 return relop(y, x)
 
